@@ -1699,3 +1699,25 @@ def returns_result(prog, c):
         if b is not None and b.is_coroutine and b.locals[0].get('h') == 'std::result::Result':
             return True
     return False
+
+
+def dominated_up(prog, fn, bb, events_fn, depth=4, seen=None):
+    """Block bb of fn is only entered after one of events_fn(fn) (blocks whose entry establishes the required fact) - in fn itself,
+    or, recursively, at every call site of fn in its callers. Returns (ok, witness list)."""
+    if seen is None:
+        seen = set()
+    ev = events_fn(fn)
+    if bb not in fn.reach_from([0], avoid_enter=ev):
+        return True, []
+    target = fn.parent if (fn.is_coroutine and fn.parent in prog.fns) else fn.id
+    if depth == 0 or target in seen:
+        return False, ['%s: not established (depth limit)' % target]
+    cs = [c for c in call_sites_of(prog, target) if c.name != 'poll']
+    if not cs:
+        p = fn.path([0], [bb], avoid_enter=ev) or []
+        return False, ['%s has no callers; unguarded path: %s' % (target, ' '.join('bb%d' % x for x in p[:14]))]
+    for c in cs:
+        ok, w = dominated_up(prog, c.fn, c.bb, events_fn, depth - 1, seen | {target})
+        if not ok:
+            return False, ['%s called from %s' % (target, c.where())] + w
+    return True, []
